@@ -4,7 +4,7 @@
    The oracles (environment, property files, library parsers) and the registry are universally quantified;
    `notok r` = r is not `Ok _` (an error, for every amount of fuel). *)
 From Coq Require Import List NArith ZArith Bool QArith.
-From PV Require Import Model.ConfigDecode Proofs.ConfigDecodeProofs Gen.ConfigSchemaGen Gen.ConfigSchema_bridge.
+From PV Require Import Model.ConfigDecode Proofs.ConfigDecodeProofs Proofs.ConfigFuelProofs Gen.ConfigSchemaGen Gen.ConfigSchema_bridge.
 Import ListNotations.
 Local Open Scope N_scope.
 
@@ -136,6 +136,17 @@ Theorem C17_error_propagation :
     forall F c, notok (decode env prop orc orcq reg lz F s c v).
 Proof. exact propagate. Qed.
 Print Assumptions C17_error_propagation.
+
+(* The fuel of the model is enough: with fuel_for v = 3 * depth v + 3 the decoder never answers Fuel, for every schema,
+   current value and oracle, over every registry whose component configs are structs and whose `nested` / `path` fields
+   are not themselves a schedule / a sink (computed true on the generated registry).  Hence every `notok` above is an
+   error `Err _` at the fuel the model runs with. *)
+Theorem C17_fuel_bound :
+  (forall env prop orc orcq reg lz, shorthand_safe reg = true ->
+     forall v s c, decode env prop orc orcq reg lz (fuel_for v) s c v <> Fuel)
+  /\ shorthand_safe gen_registry = true.
+Proof. split; [intros; apply decode_never_out_of_fuel; assumption|exact gen_shorthand_safe]. Qed.
+Print Assumptions C17_fuel_bound.
 
 (* ---- non-vacuity on the generated schema: a concrete pool configuration *)
 Definition ex_env (n : str) : option str := if str_eqb n [84] then Some [50] else None.       (* T=2 *)
